@@ -546,12 +546,18 @@ RCP<const Set> solve(const RCP<const Basic> &f, const RCP<const Symbol> &sym,
     }
 
     if (is_a<Mul>(*f)) {
-        auto args = f->get_args();
-        set_set solns;
-        for (auto &a : args) {
-            solns.insert(solve(a, sym, domain));
+        // a factor may be a pole of another one (e.g. (x**2 - 1)/(x - 1)):
+        // solve factor by factor only when no denominator depends on `sym`
+        RCP<const Basic> num, den;
+        as_numer_denom(f, outArg(num), outArg(den));
+        if (not has_symbol(*den, *sym)) {
+            auto args = f->get_args();
+            set_set solns;
+            for (auto &a : args) {
+                solns.insert(solve(a, sym, domain));
+            }
+            return SymEngine::set_union(solns);
         }
-        return SymEngine::set_union(solns);
     }
 
     return solve_rational(f, sym, domain);
